@@ -1,0 +1,24 @@
+//go:build verif
+
+package commitlog
+
+// Verification hooks (build tag verif). Without the tag these are empty
+// functions (verif_hooks_off.go). A test installs the function variables.
+
+// VerifCrashHook is called at named points between two file-system effects.
+var VerifCrashHook func(name string)
+
+// VerifGateHook is called at named scheduling points; it may block.
+var VerifGateHook func(name string)
+
+func verifCrashPoint(name string) {
+	if h := VerifCrashHook; h != nil {
+		h(name)
+	}
+}
+
+func verifGate(name string) {
+	if h := VerifGateHook; h != nil {
+		h(name)
+	}
+}
